@@ -28,9 +28,12 @@ def gen_cases(tier, seed):
     n = 48 if tier == "quick" else 500
     cases = []
     for i in range(n):
-        wk = rnd.choice(["mm1", "mm1", "mv1", "chain2", "chain2", "mvchain2", "fanin2"] + (["chain3"] if tier != "quick" else []))
+        wk = rnd.choice(["mm1", "mm1", "mv1", "chain2", "chain2", "mvchain2", "fanin2", "pshare2"] + (["chain3"] if tier != "quick" else []))
         d = gs.gen_spec(rnd, wk, levels=2 if wk in ("fanin2", "chain3") else rnd.choice([2, 2, 3]),
                         size_class=rnd.choice(["tight", "tight", "generous"]))
+        if wk == "pshare2" or (wk in ("chain2", "fanin2", "mvchain2") and rnd.random() < 0.2):
+            d["workload"]["persistent"] = "P" if wk == "pshare2" else rnd.choice(["Inputs - Intermediates", "All - Intermediates"])
+            d["class"] += "/persistent"
         if len(d["workload"]["einsums"]) > 1:
             d["mapper"]["max_fused_loops"] = rnd.choice([0, 1, 2, "inf"])
             d["mapper"]["max_fused_loops_per_rank_variable"] = rnd.choice([1, 1, 2])
@@ -53,6 +56,22 @@ def gen_cases(tier, seed):
     return cases
 
 
+def _input_feature(d):
+    """Feature of the INPUT that known mapper errors are tied to (part of the mechanism signature)."""
+    w = d["workload"]
+    if not w.get("persistent"):
+        return ""
+    from ..ref.validator import _eval_expr, _keep_env
+    users = {}
+    pers = set()
+    for e in w["einsums"]:
+        env, full = _keep_env(w, e["name"], [], [])
+        pers |= set(_eval_expr(w["persistent"], env, full))
+        for t in e["tensors"]:
+            users.setdefault(t["name"], set()).add(e["name"])
+    return ":persistent_tensor_read_by_several_einsums" if any(len(users.get(t, ())) > 1 for t in pers) else ":persistent_tensors"
+
+
 def run_case(case):
     from .. import harness as H
     from ..ref.validator import validate
@@ -69,9 +88,22 @@ def run_case(case):
         inside = [f for f in tb if "/accelforge/" in f.filename]
         if not inside:
             raise
-        return {"status": "violation", "violations": [{"sig": f"mapper_raises:{type(ex).__name__}",
-                "witness": {"error": str(ex)[:300], "where": f"{inside[-1].filename.split('/accelforge/')[-1]}:{inside[-1].name}", "spec": gs.summary(d),
-                            "spatial": [m.get("spatial") for m in d["arch"]["mems"] if m.get("spatial")]}}], "counters": counters}
+        sig = f"mapper_raises:{type(ex).__name__}@{inside[-1].name}" + _input_feature(d)
+        witness = {"error": str(ex)[:300], "where": f"{inside[-1].filename.split('/accelforge/')[-1]}:{inside[-1].name}", "spec": gs.summary(d),
+                   "spatial": [m.get("spatial") for m in d["arch"]["mems"] if m.get("spatial")]}
+        # the detailed final evaluation raised: look at what the join itself returned (eval_in_detail=False) - an
+        # ill-formed returned LoopTree is the mechanism, the exception only its symptom
+        try:
+            rows0 = H.result_rows(H.run_mapper(d, case["metrics"], eval_in_detail=False))
+            for r in rows0:
+                probs = [p for p in validate(d, r["tree"], check_capacity=False) if p[0] == "tensor_held_twice_by_one_component"]
+                if probs:
+                    sig = "invalid_mapping_returned:tensor_held_twice_by_one_component"
+                    witness.update(problem=probs[0][1], tree=r["tree"], symptom=f"{type(ex).__name__} in {witness['where']}")
+                    break
+        except Exception:
+            pass
+        return {"status": "violation", "violations": [{"sig": sig, "witness": witness}], "counters": counters}
     for r in rows[:25]:
         counters["returned_mappings_validated"] = counters.get("returned_mappings_validated", 0) + 1
         probs = validate(d, r["tree"])
